@@ -25,6 +25,7 @@ package keeper
 
 //@ func Keeper.SetParams(ctx, params) (err)
 //@   props C16
+//@   nopanic
 //@   modifies ent_store
 //@   ensures err == nil ==> ent_store == entParamsPut(old(ent_store), params) && validDenom(params.Denom) && params.MinAccepts >= 1 && params.DecisionTimeLimit >= 1 && len(splitOn(params.EntSigners, ",")) >= params.MinAccepts
 //@   ensures err != nil ==> ent_store == old(ent_store)
@@ -347,6 +348,7 @@ package keeper
 
 //@ func Keeper.AddAddressToWhitelist(ctx, address) (err)
 //@   props C03 C13
+//@   nopanic
 //@   requires len(address) <= 255
 //@   modifies ent_store
 //@   ensures (err == nil) == (len(address) >= 1)
@@ -357,6 +359,7 @@ package keeper
 
 //@ func Keeper.RemoveAddressFromWhitelist(ctx, address) (err)
 //@   props C03 C13
+//@   nopanic
 //@   requires len(address) <= 255
 //@   modifies ent_store
 //@   ensures (err == nil) == (len(address) >= 1)
@@ -366,6 +369,7 @@ package keeper
 
 //@ func Keeper.ProcessWhitelistAction(ctx, address, action, signer) (err)
 //@   props C03 C13
+//@   nopanic
 //@   requires 1 <= len(address) && len(address) <= 255
 //@   let a := bytesval(address)
 //@   modifies ent_store
@@ -377,11 +381,13 @@ package keeper
 
 //@ func Keeper.GetParamEntSigners(ctx) (r)
 //@   props C03 C13 C16
+//@   nopanic
 //@   pure
 //@   ensures entParamsSet(ent_store) ==> r == entParams(ent_store).EntSigners
 
 //@ func Keeper.GetParamEntSignersAsAddressArray(ctx) (r)
 //@   props C03 C13 C16
+//@   nopanic
 //@   pure
 //@   requires entParamsSet(ent_store)
 //@   let xs := splitOn(entParams(ent_store).EntSigners, ",")
@@ -394,6 +400,7 @@ package keeper
 // A decision or whitelist change is authorised iff the signer's address is one of the well-formed entries of the current parameter.
 //@ func Keeper.IsAuthorisedToDecide(ctx, signer) (ok)
 //@   props C03 C13 C16
+//@   nopanic
 //@   pure
 //@   requires entParamsSet(ent_store) && 1 <= len(signer) && len(signer) <= 255
 //@   ensures ok == isEntSignerIn(splitOn(entParams(ent_store).EntSigners, ","), bytesval(signer))
@@ -423,6 +430,7 @@ package keeper
 // the earlier decisions are untouched.
 //@ func Keeper.ProcessPurchaseOrderDecision(ctx, purchaseOrderID, decision, signer) (err)
 //@   props C03 C14
+//@   nopanic
 //@   requires poHas(ent_store, purchaseOrderID) && poGet(ent_store, purchaseOrderID).Id == purchaseOrderID
 //@   requires 1 <= poStatus(ent_store, purchaseOrderID) && poStatus(ent_store, purchaseOrderID) <= 4
 //@   requires 0 <= unixSecs(blockTime(ctx)) && unixSecs(blockTime(ctx)) < 2^63
@@ -470,6 +478,7 @@ package keeper
 // once per signer address whatever its spelling.  Exactly one decision is appended; nothing else changes.
 //@ func msgServer.ProcessUndPurchaseOrder(goCtx, msg) (resp, err)
 //@   props C03 C13 C14
+//@   nopanic
 //@   requires ENT_ALL(ent_store)
 //@   requires 0 <= unixSecs(blockTime(goCtx)) && unixSecs(blockTime(goCtx)) < 2^63
 //@   requires poHas(ent_store, msg.PurchaseOrderId) ==> len(poGet(ent_store, msg.PurchaseOrderId).Decisions) < 2^62
@@ -494,6 +503,7 @@ package keeper
 // Whitelist changes: only an authorised signer; exactly the named address is added or removed.
 //@ func msgServer.WhitelistAddress(goCtx, msg) (resp, err)
 //@   props C03 C13
+//@   nopanic
 //@   requires entParamsSet(ent_store)
 //@   let s0 := old(ent_store)
 //@   let a := bytesval(addrOf(msg.Address))
@@ -507,6 +517,7 @@ package keeper
 
 //@ func msgServer.UpdateParams(goCtx, req) (resp, err)
 //@   props C13 C16
+//@   nopanic
 //@   modifies ent_store
 //@   ensures @authority_only err == nil ==> req.Authority == k.Keeper.authority
 //@   ensures @rejected_changes_nothing err != nil ==> ent_store == old(ent_store)
